@@ -360,6 +360,7 @@ Proof.
   - now left.
   - now left.
   - now left.
+  - now left.
 Qed.
 
 Lemma let_pair_some {S R} (X : S * R) (f : R -> bool) l' :
@@ -372,8 +373,12 @@ Proof.
   intros A H. unfold r_accepts in A.
   destruct o; destruct l as [|p t];
     try (apply (let_pair_some _ (rv_eqb r)) in A; subst l'; apply (step_keys rc); exact H).
-  (* PopItem on a non-empty cache *)
-  destruct r; try discriminate.
-  destruct (r_lookup (p :: t) k); [|discriminate]. destruct (Nat.eqb v v0); [|discriminate].
-  inversion A; subst l'. left. eapply keys_r_remove; eauto.
+  (* PopItem on a non-empty cache; a snapshot leaves the cache as it is *)
+  - destruct r; try discriminate.
+    destruct (r_lookup (p :: t) k); [|discriminate]. destruct (Nat.eqb v v0); [|discriminate].
+    inversion A; subst l'. left. eapply keys_r_remove; eauto.
+  - destruct r; try discriminate. destruct (strictly_sorted l && same_items [] l); [|discriminate].
+    inversion A; subst l'. now left.
+  - destruct r; try discriminate. destruct (strictly_sorted l && same_items (p :: t) l); [|discriminate].
+    inversion A; subst l'. now left.
 Qed.
